@@ -3676,6 +3676,14 @@ def c17_astdiff_tie(ctx, jobs, untouched=None):
                                   "mercy of the comment filter",
                                   {"input": {"patches": patches, "src": src}, "declaration": [a, b_], "not_identical": [lo, hi],
                                    "reproduce": "gopatch -p p0.patch --print-only a.go"})
+        cm = sx_field(sb_[2:], "cmsmissing")
+        if cm is not None:
+            ctx.count("astdiff_first_snapshots")
+            if cm[0] != "0":
+                bad += 1
+                patches, src = byid.get(cid0, ([""], ""))
+                ctx.broken("correspondence", f"astdiff.Before: {cm[0]} comment group(s) of the file are associated with no value of the first "
+                                             f"snapshot (go/ast's comment map hands every group to some node); file {src[:300]!r}")
         if union_of(ia) != union_of(ib) or snap[0] != "ok" or sa[1] != sb_[1]:
             bad += 1
             if bad <= 3:
